@@ -1011,6 +1011,11 @@ fn rtu_request_library() -> Vec<(&'static str, Vec<u8>)> {
         ("write-regs", rtu_frame(1, &write_multi_pdu(16, 1, 2, 4, &[0, 0x0A, 1, 2]))),
         ("write-regs-16", rtu_frame(1, &write_multi_pdu(16, 2, 16, 32, &data40))),
         ("write-coils-max", rtu_frame(1, &write_multi_pdu(15, 0, 1968, 246, &data246))),
+        // broadcasts (address 0): the CRC covers the address byte like any other
+        ("bcast-write-reg", rtu_frame(0, &wsr(2, 0x1234))),
+        ("bcast-write-coils", rtu_frame(0, &write_multi_pdu(15, 3, 10, 2, &[0x55, 0x02]))),
+        // and the highest ordinary unit id, where it is configured
+        ("write-reg-unit-1-after-bcast", [rtu_frame(0, &wsr(4, 7)), rtu_frame(1, &wsr(5, 9))].concat()),
     ]
 }
 
@@ -1124,7 +1129,7 @@ pub fn check_c06(tier: &str) -> i32 {
         "C06",
         tier,
         "fault_enumeration",
-        "for each frame of a 10-request / 11-response RTU library: every single-bit error, every double-bit error (all pairs for frames <= 13 bytes, windowed pairs for long ones), every burst of span <= 16 bits (all inner patterns up to the bound), and CRC-trailer corruptions are delivered to the production server session / client loop; the reference RTU framer (independent bit-wise CRC) decides which spans are frames: no corrupted frame may cause a handler call, a reply or an accepted response. Transmit side: every frame the library emits for the request/response library is checked against the reference CRC and the 256-byte bound. Chunking: all 2^(n-1) partitions of frames <= 13 bytes, uniform sizes and <= 2 cuts for longer ones. distinct = distinct (frame, corruption class, reference verdict, observation)",
+        "for each frame of a 13-request (three of them broadcasts) / 17-response RTU library: every single-bit error, every double-bit error (all pairs for frames <= 13 bytes, windowed pairs for long ones), every burst of span <= 16 bits (all inner patterns up to the bound), and CRC-trailer corruptions are delivered to the production server session / client loop; the reference RTU framer (independent bit-wise CRC) decides which spans are frames: no corrupted frame may cause a handler call, a reply or an accepted response. Transmit side: every frame the library emits for the request/response library is checked against the reference CRC and the 256-byte bound. Chunking: all 2^(n-1) partitions of frames <= 13 bytes, uniform sizes and <= 2 cuts for longer ones. distinct = distinct (frame, corruption class, reference verdict, observation)",
     );
     let thorough = rep.thorough();
     let cfg = dense_cfg(true, (0, 0, 0));
@@ -1139,7 +1144,12 @@ pub fn check_c06(tier: &str) -> i32 {
         st.evaluations += 1;
         st.class("transmit-server-reply");
         st.observe(&(name, exp.output.len()));
-        if exp.output.is_empty() || exp.output.len() > 256 || {
+        // (broadcasts are not answered; the last library entry is two frames, one reply)
+        if name.starts_with("bcast-") {
+            if !exp.output.is_empty() {
+                st.violation(Violation { signature: "MACHINERY:reference-reply".into(), summary: format!("{name}: the reference answers a broadcast"), replay: json!({}) });
+            }
+        } else if exp.output.is_empty() || exp.output.len() > 256 || {
             let n = exp.output.len();
             crc16(&exp.output[..n - 2]) != (exp.output[n - 2] as u16 | (exp.output[n - 1] as u16) << 8)
         } {
